@@ -6,7 +6,12 @@ package c01
 
 import (
 	"fmt"
+	"math/big"
 	"strings"
+
+	"github.com/invopop/gobl/l10n"
+	"github.com/invopop/gobl/num"
+	"github.com/invopop/gobl/tax"
 
 	"verifharness/internal/calcproto"
 	"verifharness/internal/core"
@@ -143,6 +148,7 @@ func Run(c *core.Ctx) int {
 			c.Fail("", "document totals differ from exact decimal arithmetic rounded half away from zero at the documented points: "+firstDiff(r.GoOut, r.Model), Case{d})
 		}
 	}
+	errorBound(c, docs, res)
 	return c.Finish("random billing documents (lines 0-8, thorough up to 40; breakdowns, line and document discounts/charges by percentage with and without base, fixed, rate x quantity; foreign-currency items with exchange rates or alternative prices; advances and due dates; tax-included prices; both rounding rules; currencies with 0/2/3 decimals; regimes ES, EL, PT, IT, FR); non-trivial = at least one line; distinct by encoded document", nil)
 }
 
@@ -155,4 +161,186 @@ func firstDiff(a, b string) string {
 		}
 	}
 	return fmt.Sprintf("lengths %d vs %d", len(x), len(y))
+}
+
+// effectiveRule resolves the rounding rule of a document.
+func effectiveRule(d *calcproto.Doc) string {
+	if d.Rule != "" {
+		return d.Rule
+	}
+	return string(tax.RegimeDefFor(l10n.TaxCountryCode(d.Country).Code()).GetRoundingRule())
+}
+
+// ordinary documents for the error bound: every percentage within -100%..100%
+// (a 7935% charge multiplies any rounding error of its base by 79) and every
+// line priced (with no priced line the running totals stay at the currency's
+// precision).
+func ordinary(d *calcproto.Doc) bool {
+	okp := func(p *calcproto.Amt) bool {
+		if p == nil {
+			return true
+		}
+		lim := int64(1)
+		for i := uint32(0); i < p.E; i++ {
+			lim *= 10
+		}
+		return p.V <= lim && p.V >= -lim
+	}
+	combos := func(cs []calcproto.Combo) bool {
+		for _, c := range cs {
+			if !okp(c.Percent) || !okp(c.Surcharge) {
+				return false
+			}
+		}
+		return true
+	}
+	adjs := func(as []calcproto.LineAdj) bool {
+		for _, a := range as {
+			if !okp(a.Percent) {
+				return false
+			}
+		}
+		return true
+	}
+	for _, l := range d.Lines {
+		if l.Item == nil || (l.Item.Price == nil && len(l.Breakdown) == 0) {
+			return false
+		}
+		if !adjs(l.Discounts) || !adjs(l.Charges) || !combos(l.Taxes) {
+			return false
+		}
+		for _, s := range l.Breakdown {
+			if !adjs(s.Discounts) || !adjs(s.Charges) {
+				return false
+			}
+		}
+	}
+	for _, x := range append(append([]calcproto.DocAdj{}, d.Discounts...), d.Charges...) {
+		if !okp(x.Percent) || !combos(x.Taxes) {
+			return false
+		}
+	}
+	for _, x := range append(append([]calcproto.Adv{}, d.Advances...), d.Dues...) {
+		if !okp(x.Percent) {
+			return false
+		}
+	}
+	return true
+}
+
+func hasForeignConversion(d *calcproto.Doc) bool {
+	conv := func(it *calcproto.Item) bool { return it != nil && it.Cur != "" && it.Cur != d.Cur }
+	for _, l := range d.Lines {
+		if conv(l.Item) {
+			return true
+		}
+		for _, s := range l.Breakdown {
+			if conv(s.Item) {
+				return true
+			}
+		}
+	}
+	return false
+}
+
+// a rate x quantity line charge whose rate has fewer decimals than the working precision
+func hasCoarseChargeRate(d *calcproto.Doc, c uint32) bool {
+	for _, l := range d.Lines {
+		for _, x := range l.Charges {
+			if x.Rate != nil && x.Rate.E < c+2 {
+				return true
+			}
+		}
+	}
+	return false
+}
+
+func hasBreakdown(d *calcproto.Doc) bool {
+	for _, l := range d.Lines {
+		if len(l.Breakdown) > 0 {
+			return true
+		}
+	}
+	return false
+}
+
+// errorBound judges the second clause of C01 on the real output: under
+// 'precise', no presented total of an ordinary-sized document is a full minor
+// currency unit away from the unrounded exact value (Spec/C01.lean `exactQ`,
+// plain rational arithmetic with no rounding anywhere, evaluated by the Lean
+// driver).  Ordinary-sized here: at most 10 lines.
+func errorBound(c *core.Ctx, docs []*calcproto.Doc, res []Result) {
+	var reqs []string
+	var idx []int
+	for i, d := range docs {
+		r := res[i]
+		if r.GoErr != "" || r.Skipped != "" || !r.Agree || effectiveRule(d) != "precise" || len(d.Lines) > 10 || len(d.Lines) == 0 {
+			continue
+		}
+		if !ordinary(d) {
+			c.Count("error-bound:skipped-not-ordinary", 1)
+			continue
+		}
+		reqs = append(reqs, "exactq "+strings.TrimPrefix(r.Req, "calc "))
+		idx = append(idx, i)
+	}
+	out, err := c.ModelProp("C01", reqs)
+	if err != nil {
+		c.TieBroken("drive:C01/exactq", err.Error(), nil)
+		return
+	}
+	names := []string{"sum", "discount", "charge", "tax_included", "total", "tax", "total_with_tax", "payable", "advance", "due"}
+	for k, i := range idx {
+		d := docs[i]
+		f := strings.Fields(out[k])
+		if len(f) != 11 || f[0] != "ok" {
+			c.TieBroken("drive:C01/exactq", "unexpected answer "+out[k], Case{d})
+			continue
+		}
+		inv := d.Invoice()
+		if inv.Calculate() != nil || inv.Totals == nil {
+			continue
+		}
+		t := inv.Totals
+		sub := uint32(2)
+		if def := inv.Currency.Def(); def != nil {
+			sub = def.Subunits
+		}
+		unit := new(big.Rat).SetFrac(big.NewInt(1), new(big.Int).Exp(big.NewInt(10), big.NewInt(int64(sub)), nil))
+		got := []*num.Amount{&t.Sum, t.Discount, t.Charge, t.TaxIncluded, &t.Total, &t.Tax, &t.TotalWithTax, &t.Payable, t.Advances, t.Due}
+		c.Count("error-bound:documents", 1)
+		worst := new(big.Rat)
+		for j, a := range got {
+			if a == nil {
+				continue
+			}
+			want, ok := new(big.Rat).SetString(f[j+1])
+			if !ok {
+				continue
+			}
+			den := new(big.Int).Exp(big.NewInt(10), big.NewInt(int64(a.Exp())), nil)
+			diff := new(big.Rat).Sub(new(big.Rat).SetFrac(big.NewInt(a.Value()), den), want)
+			diff.Abs(diff)
+			if diff.Cmp(worst) > 0 {
+				worst.Set(diff)
+			}
+			if diff.Cmp(unit) >= 0 {
+				cls := ""
+				switch {
+				case hasForeignConversion(d):
+					cls = "c01.unitPriceConvertedAtCurrencyPrecision"
+				case hasBreakdown(d):
+					cls = "c01.breakdownPriceAtSubPricePrecision"
+				case hasCoarseChargeRate(d, sub):
+					cls = "c01.chargeRateAtRatePrecision"
+				}
+				c.Fail(cls, fmt.Sprintf("under precise, totals.%s = %s is a full minor unit or more away from the unrounded exact value %s", names[j], a.String(), want.FloatString(int(sub)+4)), Case{d})
+				break
+			}
+		}
+		half := new(big.Rat).Mul(unit, big.NewRat(1, 2))
+		if worst.Cmp(half) > 0 {
+			c.Count("error-bound:over-half-unit", 1)
+		}
+	}
 }
